@@ -671,6 +671,77 @@ def draw_script(draw, model, ids, kw, n_min, n_max, accept=None,
     return ops
 
 
+def shape_scripts(draw, base_ops, base):
+    """Directed disjoint shapes (bzr): which directory a moved / added entry
+    lands in when the other side renamed that directory or re-used its old
+    path. Returns (base_ops, base, THIS prefix, OTHER prefix); the base gets
+    the directories / files a shape needs when it lacks them."""
+    base_ops = list(base_ops)
+    base = tm.clone(base)
+
+    def need(op):
+        base_ops.append(op)
+        tm.apply_op(base, op)
+    dirs_ = [d for d in tm.dirs(base) if d != tm.ROOT_ID]
+    if not dirs_ or draw(st.booleans()):
+        need(["add", "sd-id", tm.ROOT_ID, "zd", "directory", None, False])
+        dirs_ = dirs_ + ["sd-id"]
+    D = draw(st.sampled_from(sorted(dirs_)))
+    files = [c for c in tm.children(base, D) if base[c]["kind"] == "file"]
+    if not files:
+        need(["add", "sf-id", D, "zf", "file", "in D\n", False])
+        files = ["sf-id"]
+    f = draw(st.sampled_from(sorted(files)))
+    banned = set(tm.descendants(base, D)) | {D}
+    others = [d for d in tm.dirs(base) if d not in banned and
+              d != tm.ROOT_ID]
+    if not others:
+        need(["add", "se-id", tm.ROOT_ID, "ze", "directory", None, False])
+        others = ["se-id"]
+    E = draw(st.sampled_from(sorted(others)))
+    outside = [x for x, e in base.items() if e["kind"] in ("file", "symlink")
+               and x not in banned]
+    pD, nD = base[D]["parent"], base[D]["name"]
+    # THIS renames D in place or moves it below E
+    move_d = draw(st.sampled_from([["rename", D, pD, "zr1"],
+                                   ["rename", D, pD, "zr1"],
+                                   ["rename", D, E, "zr1"]]))
+    shape = draw(st.sampled_from(["old-path-reused", "old-path-reused",
+                                  "basename-in-renamed-dir",
+                                  "moved-into-renamed-dir",
+                                  "subtree-added-in-renamed-dir"]))
+    if shape == "old-path-reused":
+        pre_t = [move_d,
+                 ["add", "ts1-id", pD, nD, "directory", None, False]]
+        if draw(st.booleans()):
+            pre_t.append(["add", "ts2-id", "ts1-id", "zin", "file",
+                          "decoy\n", False])
+        if outside and draw(st.booleans()):
+            pre_o = [["rename", draw(st.sampled_from(sorted(outside))), D,
+                      "zm"]]
+        else:
+            pre_o = [["add", "os1-id", D, "zn", "file", "new in D\n",
+                      draw(st.booleans())]]
+    elif shape == "basename-in-renamed-dir":
+        pre_t = [move_d]
+        pre_o = [["rename", f, D, "zr2"]]
+    elif shape == "moved-into-renamed-dir":
+        # OTHER moves f out of D into E; THIS renamed E
+        pre_t = [["rename", E, base[E]["parent"], "zr1"]]
+        pre_o = [["rename", f, E, draw(st.sampled_from(["zr2",
+                                                        base[f]["name"]]))]]
+    else:
+        pre_t = [move_d]
+        pre_o = [["add", "os1-id", D, "zsub", "directory", None, False],
+                 ["add", "os2-id", "os1-id", "zf2", "file", "deep\n", False]]
+    if draw(st.booleans()):
+        # the same shape with the sides swapped
+        pre_t, pre_o = pre_o, pre_t
+    if not id_disjoint(base, pre_t, pre_o):
+        return base_ops, base, [], []
+    return base_ops, base, pre_t, pre_o
+
+
 def _ids(prefix, tomb):
     ids = tm.IdSource(prefix)
     if tomb:
@@ -710,8 +781,16 @@ def gen_case(draw, fmt="2a", mtypes=("merge3",)):
                          git=git, kindchange=not git, uniq=uniq)
         do = [list(op) for op in dt]
     else:
-        dt = draw_script(draw, tm.clone(base), _ids("t", git), kw, 1, 4,
-                         git=git, kindchange=not git, uniq=uniq)
+        pre_t, pre_o = [], []
+        if not git and draw(st.integers(0, 2)) == 0:
+            # directed shapes around parent resolution (see shape_scripts)
+            base_ops, base, pre_t, pre_o = shape_scripts(draw, base_ops, base)
+        mt_ = replay(base, pre_t)
+        dt = pre_t + draw_script(draw, mt_, _ids("t", git), kw,
+                                 0 if pre_t else 1, 3 if pre_t else 4,
+                                 git=git, kindchange=not git, uniq=uniq)
+        if pre_t and not id_disjoint(base, dt, pre_o):
+            dt = pre_t
         m_this = replay(base, dt)
         if git:
             def accept(ops):
@@ -719,8 +798,11 @@ def gen_case(draw, fmt="2a", mtypes=("merge3",)):
         else:
             def accept(ops):
                 return id_disjoint(base, dt, ops)
-        do = draw_script(draw, tm.clone(base), tm.IdSource("o"), kw, 1, 5,
-                         accept=accept, git=git, uniq=uniq)
+        mo_ = replay(base, pre_o)
+        do = pre_o + draw_script(
+            draw, mo_, tm.IdSource("o"), kw, 0 if pre_o else 1,
+            3 if pre_o else 5, accept=(lambda ops: accept(pre_o + ops)),
+            git=git, uniq=uniq)
     if fam == "other=base":
         mode = draw(st.sampled_from(["direct", "direct", "empty-commit",
                                      "pointless"]))
